@@ -344,6 +344,77 @@ def _child_forms(arg):
     return [_one(kind, cf, cname, a, k) for a, k in forms]
 
 
+
+# -- several cache directories / several processes -----------------------------------------------
+# Histories in which a process meets a function's source already stored (it only READS func_code.py) before it
+# stores results somewhere else, or re-stores them after somebody else cleared the directory.
+
+def _phase(arg):
+    """One process life: a list of steps on (location, action)."""
+    kind, idx, steps = arg
+    import joblib
+    import joblib.memory as M
+    global _LOOP
+    _LOOP = None
+    M._FUNCTION_HASHES.clear()
+    fn = memgen.get_callable(_MOD, kind, idx)
+    cname = memgen.counter_name(kind, idx)
+    cfs = {}
+    out = []
+    for loc, action in steps:
+        if loc not in cfs:
+            cfs[loc] = joblib.Memory(loc, verbose=0).cache(fn)
+        if action == "call":
+            out.append(list(_one(kind, cfs[loc], cname, (("v", "a"),) * _nreq(idx), {})))
+        elif action == "clear-by-other-process":
+            r = core.run_isolated(_clear_loc, loc, timeout=60)
+            out.append(["cleared", r[0]])
+    return out
+
+
+def _clear_loc(loc):
+    import joblib
+    joblib.Memory(loc, verbose=0).clear(warn=False)
+    return True
+
+
+def _nreq(idx):
+    return sum(1 for k, d in _SIGS[idx] if k in ("po", "pk") and not d)
+
+
+def multi_location(ctx):
+    root = core.scratch_dir("c06ml")
+    n = 0
+    # signatures callable with positionals only and no keyword-only parameter without default
+    idxs = [i for i, s in enumerate(_SIGS) if all(d or k in ("po", "pk", "va", "vk") for k, d in s)][:12]
+    for kind in ("func", "method", "async"):
+        for idx in idxs:
+            A = os.path.join(root, "A")
+            B = os.path.join(root, "B")
+            for name, lives in (
+                    ("second-location-after-reading-the-first", [[(A, "call")], [(A, "call"), (B, "call")], [(B, "call")]]),
+                    ("restored-after-clear-by-another-process", [[(A, "call")], [(A, "call"), (A, "clear-by-other-process"), (A, "call")], [(A, "call")]])):
+                shutil.rmtree(root, ignore_errors=True)
+                os.makedirs(root)
+                res = None
+                for life in lives:
+                    res = core.run_isolated(_phase, (kind, idx, life), timeout=120)
+                    if res[0] != "ok":
+                        break
+                n += 1
+                rp = {"part": "multi-location", "kind": kind, "sig_index": idx, "history": name, "n_params": _N}
+                if res[0] != "ok":
+                    ctx.violation("multi-location|process-failed|%s" % kind, "%s: %r" % (name, res), rp)
+                    continue
+                inc, executed, value = res[1][-1]
+                if executed != 0 or not inc:
+                    ctx.violation("re-executed|%s|%s|fresh-process" % (kind, name),
+                                  "%s def f%s, history '%s' (one process life per bracket: %r): the last call - a repetition of a completed, never evicted call "
+                                  "- gave check_call_in_cache=%r and executed the body %d time(s)" % (kind, sigs.sig_label(_SIGS[idx]), name,
+                                                                                                    [[(os.path.basename(l), a) for l, a in life] for life in lives], inc, executed), rp)
+    shutil.rmtree(root, ignore_errors=True)
+    return n
+
 # -- parameter names -------------------------------------------------------------------------
 # "every call that the plain function accepts is accepted by the cached wrapper": the wrapper forwards the
 # user's keywords through joblib functions that have named parameters of their own.  Alphabet = every
@@ -512,12 +583,15 @@ def run(ctx):
         g += res["groups"]
         for v in res["viol"]:
             ctx.violation(*v)
+    n += multi_location(ctx)
     ctx.rule = ("every signature with <= %d parameters x {plain function, bound method, functools.partial, async def}; for every target "
                 "binding (each defaulted parameter at its default or not, 0-1 surplus positionals, 0-2 surplus keywords) ALL call forms "
                 "that Signature.bind maps to that binding, issued one after the other on one cache directory (second half in a fresh "
                 "forked process for every third group); then clear() / reduce_size(items_limit=0) / f.clear() and the call again, repeated in a fresh process; ignore=[p] for "
                 "every named parameter (ignored value changed: no execution; other parameter changed: execution); dict and set "
-                "arguments rebuilt in another insertion order. Parameter names: every identifier joblib uses as a parameter name in "
+                "arguments rebuilt in another insertion order. Several directories / processes: a process that only READS the stored "
+                "source in one directory before storing results in a second one, or re-stores a result after another process cleared the "
+                "directory, followed by a fresh process repeating the call. Parameter names: every identifier joblib uses as a parameter name in "
                 "memory / func_inspect / _store_backends / hashing / logger (%d names) x {first parameter, keyword-only parameter, key "
                 "received by **kw} passed by keyword x Memory(verbose 0/1/50) x {__call__, call_and_shelve, call, check_call_in_cache} "
                 "incl. a call on a damaged entry. evaluations = cached calls judged; distinct_nontrivial = binding groups"
@@ -532,6 +606,23 @@ def run(ctx):
 
 
 def replay(data):
+    if data.get("part") == "multi-location":
+        _setup(data["n_params"])
+
+        class _C:
+            def __init__(self):
+                self.v = []
+
+            def violation(self, sig, msg, rp):
+                self.v.append((sig, msg))
+        c = _C()
+        multi_location(c)
+        for sig, msg in c.v:
+            print(sig, msg)
+        if c.v:
+            print("VIOLATION property=C06 replay=<this file>")
+            return 1
+        return 0
     if data.get("part") == "names":
         names = joblib_parameter_names()
         i = names.index(data["name"])
